@@ -578,6 +578,30 @@ package consensus
 // ephemeral (created in this block) siacoin parent: clause E1
 //@ spec ephSC(ms MidState, sci types.V2SiacoinInput) bool = has(ms.elements, sci.Parent.ID) && ms.elements[sci.Parent.ID] < len(ms.sces) && ms.sces[ms.elements[sci.Parent.ID]].Created && (cheight(ms.base) >= ms.base.Network.HardforkV2.EphemeralOutputHeight ==> sci.Parent.ID == ms.sces[ms.elements[sci.Parent.ID]].SiacoinElement.ID && sci.Parent.SiacoinOutput == ms.sces[ms.elements[sci.Parent.ID]].SiacoinElement.SiacoinOutput && sci.Parent.MaturityHeight == ms.sces[ms.elements[sci.Parent.ID]].SiacoinElement.MaturityHeight)
 
+// Ephemeral parents (created earlier in the same block, no leaf index yet).  C04 asks that a
+// parent is accepted only with exactly the field values it was created with.  From
+// EphemeralOutputHeight on the code enforces that (siacoins: contents compared; siafunds:
+// ephemeral parents rejected).  In the legacy window before that height only the existence of a
+// created element with that ID is checked: the *-legacy-window clauses state what the property
+// asks there; they do not hold on the pinned tree (known finding D5).  Both functions stay
+// inlined into their callers.
+//@ func validateEphemeralSiacoinElement
+//@   inline
+//@   prop C04 C01
+//@   requires ms.base.Network != nil && msWF(*ms)
+//@   let e = ms.sces[ms.elements[sci.Parent.ID]].SiacoinElement
+//@   ensures @ephemeral-exists result == nil ==> has(ms.elements, sci.Parent.ID) && ms.elements[sci.Parent.ID] < len(ms.sces) && ms.sces[ms.elements[sci.Parent.ID]].Created
+//@   ensures @ephemeral-content-from-fix-height result == nil && cheight(ms.base) >= ms.base.Network.HardforkV2.EphemeralOutputHeight ==> sci.Parent.ID == e.ID && sci.Parent.SiacoinOutput == e.SiacoinOutput && sci.Parent.MaturityHeight == e.MaturityHeight
+//@   ensures @ephemeral-content-legacy-window result == nil && cheight(ms.base) < ms.base.Network.HardforkV2.EphemeralOutputHeight ==> sci.Parent.SiacoinOutput == e.SiacoinOutput && sci.Parent.MaturityHeight == e.MaturityHeight
+//@ func validateEphemeralSiafundElement
+//@   inline
+//@   prop C04 C01 C10
+//@   requires ms.base.Network != nil && msWF(*ms)
+//@   let e = ms.sfes[ms.elements[sfi.Parent.ID]].SiafundElement
+//@   ensures @ephemeral-exists result == nil ==> has(ms.elements, sfi.Parent.ID) && ms.elements[sfi.Parent.ID] < len(ms.sfes) && ms.sfes[ms.elements[sfi.Parent.ID]].Created
+//@   ensures @ephemeral-rejected-from-fix-height result == nil ==> cheight(ms.base) < ms.base.Network.HardforkV2.EphemeralOutputHeight
+//@   ensures @ephemeral-content-legacy-window result == nil ==> sfi.Parent.SiafundOutput == e.SiafundOutput && sfi.Parent.ClaimStart == e.ClaimStart
+
 //@ func validateV2Siacoins
 //@   pure
 //@   prop C09
